@@ -1,0 +1,54 @@
+//! verif-hooks: add-only, read-only entry points for the verification harness (/verif, property C16).
+//!
+//! The base protocols (discovery, identify, ping) live in the private module `protocols` and are
+//! driven by tentacle `ServiceProtocol` contexts; these functions expose exactly the decode calls
+//! their `received` handlers make on the bytes of a peer, nothing else.
+
+use p2p::bytes::Bytes;
+
+use crate::protocols::discovery::protocol::{DiscoveryMessage, decode as discovery_decode_impl};
+
+/// What `DiscoveryProtocol::received` gets from `decode(&data)`
+#[derive(Clone, PartialEq, Eq, Debug)]
+pub enum VerifDiscovery {
+    /// GetNodes { version, count, listen_port, required_flags (bits) }
+    GetNodes(u32, u32, Option<u16>, u64),
+    /// Nodes { announce, items: (number of addresses, flags bits) }
+    Nodes(bool, Vec<(usize, u64)>),
+}
+
+/// `protocols::discovery::protocol::decode`, as called by `DiscoveryProtocol::received`
+pub fn discovery_decode(data: &Bytes) -> Option<VerifDiscovery> {
+    discovery_decode_impl(data).map(|m| match m {
+        DiscoveryMessage::GetNodes {
+            version,
+            count,
+            listen_port,
+            required_flags,
+        } => VerifDiscovery::GetNodes(version, count, listen_port, required_flags.bits()),
+        DiscoveryMessage::Nodes(nodes) => VerifDiscovery::Nodes(
+            nodes.announce,
+            nodes
+                .items
+                .iter()
+                .map(|n| (n.addresses.len(), n.flags.bits()))
+                .collect(),
+        ),
+    })
+}
+
+/// `IdentifyMessage::decode`, as called by `IdentifyProtocol::received`:
+/// (number of listen addresses kept, observed address, the identify bytes)
+pub fn identify_decode(data: &[u8]) -> Option<(usize, String, Vec<u8>)> {
+    crate::protocols::identify::verif_identify_decode(data)
+}
+
+/// `Identify::verify` of a node whose network identifier is `name`: (flags bits, client version)
+pub fn identify_verify(name: &str, data: &[u8]) -> Option<(u64, String)> {
+    crate::protocols::identify::verif_identify_verify(name, data)
+}
+
+/// `PingMessage::decode`, as called by `PingHandler::received`: (is pong, nonce)
+pub fn ping_decode(data: &[u8]) -> Option<(bool, u32)> {
+    crate::protocols::ping::verif_decode(data)
+}
